@@ -1,7 +1,9 @@
 // go2v — a translator from a subset of Go to Gallina (see gen/TRANSLATOR.md).
 //
 // trans.go      : package loading + type checking (go/types with a stub importer), type mapping, struct -> Record,
-//                 call graph / effect analysis (does a method write its receiver? does a function loop?), emission.
+//
+//	call graph / effect analysis (does a method write its receiver? does a function loop?), emission.
+//
 // trans_expr.go : expressions (continuation-passing: every sub-expression that can panic becomes a bind).
 // trans_stmt.go : statements, join points, loops.
 //
@@ -21,9 +23,12 @@ import (
 
 // TransSpec says what to translate.
 type TransSpec struct {
-	Dir     string   // package directory below the repository root
-	Structs []string // struct types that become Records
-	Funcs   []string // "Recv.Name" or "Name"; callees inside the package are pulled in automatically
+	Dir       string                   // package directory below the repository root
+	Structs   []string                 // struct types that become Records
+	Funcs     []string                 // "Recv.Name" or "Name"; callees inside the package are pulled in automatically
+	Extern    []string                 // [seq] functions translated by another area (its Gen file is imported by the caller's header): analysed, not emitted
+	Expect    map[string][]ExpectField // [stable] struct -> its pristine fields (name, Go type) in order: stable Record names (trans_stable.go)
+	TimedTail []string                 // [seq] functions whose body is translated up to the first statement using package time (trans_seq.go)
 	// [ext:T20] (gen/trans_ext20.go) -------------------------------------------------------------------------------
 	Globals    []string // package-level variables treated as explicit state: read -> extra parameter, written -> extra result
 	WrapSigned bool     // int8/16/32/64 wrap around (swrap N) instead of being unbounded; `int` stays unbounded
@@ -41,16 +46,18 @@ const (
 	kElem               // a type parameter -> Z, zero value 0
 	kSlice              // []int-like / []T -> list Z
 	kStruct             // a translated struct (or a pointer to it) -> its Record
+	kPlace              // [seq] h := &s[i], s a slice of translated structs -> the index (trans_seq.go)
 	kErr                // [ext:T20] error -> Z: nil = 0, a sentinel `var ErrX = errors.New(..)` = a positive code
 )
 
 type gtype struct {
-	k    kind
-	bits int
-	st   *structInfo
-	ptr  bool
-	str  bool  // [ext:T20] kSlice that is a Go string (immutable bytes)
-	arr  int64 // [ext:T20] kSlice that is a Go array [arr]T (isArr)
+	k     kind
+	bits  int
+	st    *structInfo
+	ptr   bool
+	elem  *structInfo // [seq] kSlice: the element struct of a []S (nil: list Z)
+	str   bool        // [ext:T20] kSlice that is a Go string (immutable bytes)
+	arr   int64       // [ext:T20] kSlice that is a Go array [arr]T (isArr)
 	isArr bool
 }
 
@@ -59,6 +66,9 @@ func (g gtype) coq() string {
 	case kBool:
 		return "bool"
 	case kSlice:
+		if g.elem != nil { // [seq]
+			return "list " + g.elem.name
+		}
 		return "list Z"
 	case kStruct:
 		return g.st.name
@@ -81,10 +91,11 @@ func (g gtype) zero() string {
 }
 
 type structInfo struct {
-	name   string
-	obj    *types.TypeName
-	fields []string
-	ftypes []gtype
+	name    string
+	obj     *types.TypeName
+	fields  []string
+	ftypes  []gtype
+	goNames []string // [stable] the Go name of each field (fields: the emitted names), same order
 }
 
 type funcInfo struct {
@@ -114,12 +125,16 @@ type Translator struct {
 	byName  map[string]*ast.FuncDecl
 	order   []*funcInfo
 	global  map[string]bool // Coq names that locals must not shadow
+	seq     *seqState       // [seq] sequential reading of atomics, places, timed tails (trans_seq.go)
 	ext20                   // [ext:T20] state of gen/trans_ext20.go
 }
 
 type stubImporter struct{}
 
 func (stubImporter) Import(path string) (*types.Package, error) {
+	if p := seqStubPackage(path); p != nil { // [seq] sync/atomic, runtime, time: typed stubs
+		return p, nil
+	}
 	p := types.NewPackage(path, filepath.Base(path))
 	if path == "errors" { // [ext:T20] errors.New has a type, so that `var ErrX = errors.New("..")` and `err == ErrX` are typed
 		sig := types.NewSignatureType(nil, nil, nil, types.NewTuple(types.NewVar(token.NoPos, p, "text", types.Typ[types.String])),
@@ -186,6 +201,9 @@ func (t *Translator) typeOf(ty types.Type, n ast.Node) gtype {
 		e := t.typeOf(x.Elem(), n)
 		if e.k == kInt || e.k == kUint || e.k == kElem {
 			return gtype{k: kSlice}
+		}
+		if e.k == kStruct && !e.ptr { // [seq] []S for a translated struct S
+			return gtype{k: kSlice, elem: e.st}
 		}
 	case *types.Pointer:
 		if nm, ok := x.Elem().(*types.Named); ok {
@@ -271,7 +289,8 @@ func Translate(repo string, spec TransSpec) (out string, err error) {
 	for _, w := range coqReserved {
 		t.global[w] = true
 	}
-	t.setup20(p, tpkg, spec) // [ext:T20]
+	t.seqInit(spec, tpkg, p.Files) // [seq]
+	t.setup20(p, tpkg, spec)       // [ext:T20]
 	for _, f := range p.Files {
 		for _, d := range f.Decls {
 			if fd, ok := d.(*ast.FuncDecl); ok && fd.Body != nil {
@@ -314,6 +333,21 @@ func Translate(repo string, spec TransSpec) (out string, err error) {
 			}
 			si.fields = append(si.fields, f.Name())
 			si.ftypes = append(si.ftypes, ft)
+			si.goNames = append(si.goNames, f.Name())
+		}
+		{ // [stable] emit the expected names in the expected order when only names / order changed
+			var tys []string
+			for i := 0; i < st.NumFields(); i++ {
+				tys = append(tys, fieldTypeString(st.Field(i).Type()))
+			}
+			if order, names, ok := stableFields(si.goNames, tys, spec.Expect[sn]); ok {
+				var gn []string
+				var ft []gtype
+				for _, j := range order {
+					gn, ft = append(gn, si.goNames[j]), append(ft, si.ftypes[j])
+				}
+				si.fields, si.goNames, si.ftypes = names, gn, ft
+			}
 		}
 		t.global[sn], t.global["mk"+sn], t.global["zero_"+sn] = true, true, true
 		for _, f := range si.fields {
@@ -331,6 +365,9 @@ func Translate(repo string, spec TransSpec) (out string, err error) {
 	t.analyse()
 	var fb strings.Builder // [ext:T20] functions first (they register the constants they use), constants emitted before them
 	for _, fi := range t.order {
+		if t.seq.extern[fi.goName] { // [seq] emitted by another area
+			continue
+		}
 		fb.WriteString("\n" + t.emitFunc(fi))
 		// proofs unfold generated definitions through this hint database, so that a helper function that appears
 		// in the source later is unfolded without touching the proof scripts
@@ -343,7 +380,7 @@ func Translate(repo string, spec TransSpec) (out string, err error) {
 
 func (si *structInfo) emit() string {
 	var b strings.Builder
-	fmt.Fprintf(&b, "\n(* type %s struct *)\nRecord %s : Type := mk%s {", si.name, si.name, si.name)
+	fmt.Fprintf(&b, "\n(* type %s struct%s *)\nRecord %s : Type := mk%s {", si.name, si.renameNote(), si.name, si.name)
 	for i, f := range si.fields {
 		if i > 0 {
 			b.WriteString(";")
@@ -438,7 +475,7 @@ func (t *Translator) calleeOf(call *ast.CallExpr) (*types.Func, ast.Expr) {
 		}
 	case *ast.SelectorExpr:
 		if sel := t.info.Selections[f]; sel != nil && sel.Kind() == types.MethodVal {
-			if fn, ok := sel.Obj().(*types.Func); ok {
+			if fn, ok := sel.Obj().(*types.Func); ok && (t.seq == nil || fn.Pkg() == t.seq.pkg) { // [seq] not methods of stub packages
 				return fn.Origin(), f.X
 			}
 		}
@@ -492,6 +529,7 @@ func (t *Translator) assigned(n ast.Node, set map[types.Object]bool) {
 		return
 	}
 	ast.Inspect(n, func(m ast.Node) bool {
+		t.seqAssigned(m, set) // [seq] writes through h := &s[i] and atomic stores
 		switch x := m.(type) {
 		case *ast.AssignStmt:
 			for _, l := range x.Lhs {
@@ -565,7 +603,7 @@ func (t *Translator) analyse() {
 		}
 		for _, fi := range todo {
 			seen[fi] = true
-			ast.Inspect(fi.decl.Body, func(m ast.Node) bool {
+			ast.Inspect(t.body(fi), func(m ast.Node) bool { // [seq] t.body: without a timed tail
 				if c, ok := m.(*ast.CallExpr); ok {
 					if fn, _ := t.calleeOf(c); fn != nil {
 						fi.callees[t.funcFor(fn, c)] = true
@@ -573,7 +611,7 @@ func (t *Translator) analyse() {
 				}
 				return true
 			})
-			fi.loops = hasLoop(fi.decl.Body)
+			fi.loops = hasLoop(t.body(fi))
 		}
 	}
 	for changed := true; changed; {
@@ -581,7 +619,7 @@ func (t *Translator) analyse() {
 		for _, fi := range t.funcs {
 			if fi.recv != nil && fi.recvT.ptr && !fi.writes {
 				set := map[types.Object]bool{}
-				t.assigned(fi.decl.Body, set)
+				t.assigned(t.body(fi), set)
 				if set[fi.recv] {
 					fi.writes, changed = true, true
 				}
